@@ -44,8 +44,15 @@ func c08E2EValues() []float64 {
 var c08RunSeq int64
 
 // restartWorker shuts the server of w down gracefully and boots a new process on the same directory.
-func restartWorker(w *kernel.Worker) (*kernel.Worker, error) {
-	_ = w.Call("shutdown", nil, nil)
+func restartWorker(w *kernel.Worker) (*kernel.Worker, error) { return restartWorkerHow(w, true) }
+
+// crashRestartWorker kills the server process of w (no shutdown sequence) and boots a new process on the same directory.
+func crashRestartWorker(w *kernel.Worker) (*kernel.Worker, error) { return restartWorkerHow(w, false) }
+
+func restartWorkerHow(w *kernel.Worker, graceful bool) (*kernel.Worker, error) {
+	if graceful {
+		_ = w.Call("shutdown", nil, nil)
+	}
 	w.Kill()
 	var last error
 	for attempt := 0; attempt < 3; attempt++ { // a boot can lose a port race: retry
